@@ -36,6 +36,10 @@ func SplitRawStatements(filepath, s string) ([]*RawStatement, error) {
 				return nil, err
 			}
 			firstPos = lex.Token.Pos
+			// Comments in front of the next token belong to the next statement ("It preserves all comments").
+			if len(lex.Token.Comments) > 0 {
+				firstPos = lex.Token.Comments[0].Pos
+			}
 			continue
 		}
 
